@@ -1008,14 +1008,7 @@ def opt_gate(repo, res):
         nums = None
     if nums is None or sorted(nums) != [-1.0, 0.0, 1.0]:
         res.fail(key, f"clamp targets are {nums}, expected -1, 0, 1", et.line(cl.node))
-    close = [c for c in calls_in(cl.node) if (call_name(c) or "").split(".")[-1] in ("isclose", "allclose")]
-    ok_close = False
-    for c in close:
-        kw_ = {k.arg: ast.unparse(k.value) for k in c.keywords}
-        if kw_.get("rtol") == "rtol" and kw_.get("atol") == "atol":
-            ok_close = True
-    if not ok_close:
-        res.fail(key, "values are not compared with the targets under the function's own (rtol, atol)", et.line(cl.node))
+    # how the values are compared with the targets: rule TABLE-CLAMP (the function interpreted on a sample table)
     # options table: every option consumed or inert
     om = repo.mod("ffcx.options")
     declared = set(const_value(k) for k in om.assign("FFCX_DEFAULT_OPTIONS").keys)
